@@ -55,6 +55,9 @@ def scenarios(tier):
                     "threads": {"T1": [MENU["M1"], MENU["R"]], "T2": [MENU["M2"]]}})
     for s in out:
         s["observer"] = True
+        # the instance is used on afterwards: a delete-all must leave no document of the pid, as after a sequential order
+        s["followups"] = [("delete_meta", "p1", None)]
+        s["after"] = True
     out += line_level_scenarios(tier, out)
     return out
 
@@ -72,6 +75,9 @@ def line_level_scenarios(tier, base):
         {"name": "delete_metadata(p1)||store_metadata(p2,v1) from meta2", "init": "meta2", "formats": FORMATS,
          "pids": ("p1", "p2"), "threads": {"T1": [("delete_meta", "p1", None)], "T2": [("store_meta", "p2", None, "v1")]}},
     ]
+    for sp in extra:
+        sp["followups"] = [("delete_meta", "p1", None), ("delete_meta", "p2", None)]
+        sp["after"] = True
     out = []
     for sp in list(base) + extra:
         if len(sp["threads"]) != 2 or any(len(v) != 1 for v in sp["threads"].values()):
